@@ -290,6 +290,53 @@ func scenC04(r *Run) {
 		}
 		r.S.Probe("c04_relative_location")
 	}
+	// history phase: a permanent redirect from one host to the same path on another says something
+	// about that one URL. What is fetched afterwards from the first host, under other paths, the
+	// same path with another query, or the same URL again, still goes to the host its URL names.
+	if t.Chance(1, 3) {
+		i := 700 + t.Draw(50)
+		status := []int{301, 308, 301, 302, 307}[t.Draw(5)]
+		movedPath := fmt.Sprintf("/moved/%d", i)
+		h2 := w.Hosts["h2.example"]
+		prev := h2.Handler
+		h2.Handler = func(target string, cr *ConnRec) *Response {
+			if target == movedPath {
+				return Redirect(status, "https://h1.example"+movedPath)
+			}
+			return prev(target, cr)
+		}
+		first := r.Spawn("moved", func() { client.FetchURL(mustURL("https://h2.example" + movedPath)) })
+		r.Drive(func() bool { return first.Done }, hugeHorizon, 20000)
+		from := len(w.Conns)
+		var wantReqs []string
+		var later []string
+		for k := 1 + t.Draw(3); k > 0; k-- {
+			target := []string{fmt.Sprintf("/other/%d", i+k), movedPath + fmt.Sprintf("?page=%d", k), fmt.Sprintf("/moved/%d", i+100+k), "/"}[t.Draw(4)]
+			later = append(later, target)
+			wantReqs = append(wantReqs, "h2.example|"+target)
+		}
+		tk := r.Spawn("after-moved", func() {
+			for _, target := range later {
+				jtp.Get(mustURL("https://h2.example"+target), AcceptAP, []string{"application/activity+json", "application/ld+json", "application/json"}, 20)
+			}
+		})
+		r.Drive(func() bool { return tk.Done }, hugeHorizon, 40000)
+		got := map[string]bool{}
+		var all []string
+		for _, cr := range w.Conns[from:] {
+			all = append(all, strings.ToLower(cr.Host)+"|"+cr.Target)
+			if cr.Outcome == "connected" && cr.ReqDone {
+				got[strings.ToLower(cr.Host)+"|"+cr.Target] = true
+			}
+		}
+		for _, k := range wantReqs {
+			if !got[k] {
+				r.Violate("C04", "history", "request-sent-to-a-host-learnt-from-an-earlier-redirect", fmt.Sprintf("after https://h2.example%s had answered %d with a Location on h1.example, fetching %s must be requested from h2.example; requests seen: %v", movedPath, status, k, all))
+				break
+			}
+		}
+		r.S.Probe("c04_history_after_permanent_redirect")
+	}
 	// concurrent phase: several plain URLs on both hosts fetched at the same time; every one of
 	// them must be requested exactly once, on its own host, with its own target
 	if t.Chance(1, 2) {
